@@ -11,6 +11,6 @@ CONSTANTS
   Span = 0
 VIEW TraceView
 CONSTRAINT HighWater
-INVARIANTS ShardInRange TimeIndependent AgentApiAgree HelpersAgree UnshardedReadsAll SecondaryDiffers HashInRange ConfigConsistent PrimaryIsOwner ReplicaOfShardAlive SpareDiffers SpareShared NoneOnlyIfDown FiledOwnSoon TickOwn
+INVARIANTS ShardInRange TimeIndependent AgentApiAgree HelpersAgree UnshardedReadsAll SecondaryDiffers HashInRange ConfigConsistent PrimaryIsOwner ReplicaOfShardAlive SpareDiffers SpareShared NoneOnlyIfDown FiledOwnSoon TickOwn AddressedToMe
 POSTCONDITION TraceAccepted
 CHECK_DEADLOCK FALSE
